@@ -217,7 +217,15 @@ def extend(rep, prop):
             rc, fired = _run_check(prop, dst)
             n_seed += 1
             rep.ob("self-validation", "seeded change %s is reported" % name, rc == 1 and bool(fired), "the check stayed silent on an independently written breaking change", key="self-validation|seed|%s" % name)
+        try:
+            limits = json.load(open(os.path.join(rdir, "KNOWN_LIMITS.json")))
+        except (OSError, ValueError):
+            limits = {}
         for name, patch in refacs:
+            lim = limits.get(name)
+            if isinstance(lim, dict) and prop in lim.get("props", []):
+                rep.sample({"refactoring-known-limit": name, "reason": lim.get("reason", "")})
+                continue
             _sync(dst)
             p = subprocess.run(["patch", "-p1", "-s", "-i", patch], cwd=dst, stdout=subprocess.PIPE, stderr=subprocess.STDOUT, text=True)
             if p.returncode != 0:
